@@ -1,7 +1,7 @@
 """C04 - worker lifecycle: begin first once, end last once, quota kept, none left running."""
 import random
 
-from adapters import C01, C03
+from adapters import C01, C03, poolconf
 
 JUDGE = {"r": 0, "t": 0, "l": 1}
 
@@ -13,6 +13,7 @@ def run(ctx):
                 "at a chosen element of a chosen call in a chosen worker); lifecycle clause enforced: begin at most once and before any item, "
                 "items only between completed begin and end, at most quota chunks, end once, until_all_ready only when every worker in the "
                 "pool has completed begin, no worker (replaced ones included) running after the context is left")
+    poolconf.factory_design_legs(ctx, quick, ['Lifecycle'], 'leak', ['Lifecycle'])
     rnd = random.Random(ctx.seed * 7919 + 104)
     scens = C03.scenarios(rnd, quick)
     out = []
